@@ -378,6 +378,8 @@ class Embedding(nn.Embedding):
             dtype=dtype,
         )
         self.weight = Parameter(self.weight.data, mup_type="weight")
+        # The new parameter object is trainable again: re-apply `_freeze`
+        self.weight.requires_grad_(not _freeze)
 
     def forward(self, input: Tensor) -> Tensor:
         return U.embedding(
